@@ -290,7 +290,7 @@ class SoupServerSession(SoupSession, session_type='server'):
         if isinstance(reply, LoginAccepted):
             self.session_id.update(reply)
             self._logged_in = True
-            self.start_heartbeats(self.client_heartbeat_interval, self.server_heartbeat_interval)
+            self.start_heartbeats(self.server_heartbeat_interval, self.client_heartbeat_interval)
         else:
             await self.close()
 
